@@ -365,6 +365,17 @@ def discharge(obligations, timeout_s=10, workers=None, use_cvc5=True):
                 idx, st, solver, t, model = _work(j)
                 ob, label, _, head = metas[idx]
                 results[idx] = Result(ob.name, label, st, solver, t, model, ob.kind, ob.path, head, ob.meta)
+        # budgets are wall-clock: a loaded machine can turn a query that normally takes a second into a timeout.  Every
+        # 'unknown' is therefore asked once more with six times the budget and at most 4 at a time (verdicts must not
+        # flip with the load; an answer that is still unknown stays undecided, it is never mapped to a violation).
+        again = [(j[0], j[1], timeout_s * 6, use_cvc5) for j in real_jobs if results[j[0]] is not None and results[j[0]].status == "unknown"]
+        if again:
+            ctx = mp.get_context("fork")
+            with ctx.Pool(min(4, len(again))) as pool:
+                for idx, st, solver, t, model in pool.imap_unordered(_work, again, chunksize=1):
+                    if st != "unknown":
+                        ob, label, _, head = metas[idx]
+                        results[idx] = Result(ob.name, label, st, solver + "(retry)", t + results[idx].time, model, ob.kind, ob.path, head, ob.meta)
     return results
 
 
